@@ -30,7 +30,7 @@ PROPS = {
         "streams": ["json"],
         "required_theorems": ["escape_valid", "escape_valid_doc", "marshal_valid_partial", "marshal_valid_rawfree",
                               "encode_valid", "marshal_unsupported_is_error", "marshal_toplevel_error_empty",
-                              "marshal_full_false", "C17_full_false"],
+                              "marshal_full_false", "C17_full_false", "valid_no_panic", "indent_no_panic"],
         "trusted": [
             "Spec/Json.lean: RFC 8259 recogniser isJson (fuel = length + 1); compared with encoding/json.Valid on every byte string of stream `json`",
             "hand models Model/JsonEnc.lean (Marshal), Model/JsonScan.lean (scanner, Valid, Compact, Indent), Go/Utf8.lean (utf8.DecodeRune), tied by stream `json`",
@@ -45,7 +45,7 @@ PROPS = {
         ],
         "partial": [
             "marshal_valid_partial: hypotheses isTopErr v = false (open finding C17:marshal-empty:toplevel-error-value, refutation marshal_full_false) and rawsOK CompactWritesValue v (compact validity not proved)",
-            "C17_full: scanner_sound/scanner_complete, compact/indent validity and the Unmarshal round trip are stated/tested, not proved",
+            "C17_full: scanner_sound/scanner_complete, compact/indent validity and the Unmarshal round trip are stated/tested, not proved; of the scanner only valid_no_panic / indent_no_panic are proved (compact's slice bounds are not)",
         ],
     },
 }
